@@ -18,10 +18,6 @@ TARGET_PREFIXES = ('conversion', 'chopper', 'tof', 'peaks', 'absorption', 'io', 
 # documented mutators: (function, allowed root, reason)
 ALLOWED_MUTATORS = {
     'io.cif:Block.add': 'documented builder method of Block (adds a chunk or loop to this block)',
-    'io.cif:Block.name.setter': 'property setter',
-    'io.cif:CIF.name.setter': 'property setter',
-    'io.cif:CIF.comment.setter': 'property setter',
-    'io.cif:_CIFBase.comment.setter': 'property setter',
     'io.cif:Chunk.__setitem__': 'mapping interface of Chunk',
     'io.cif:Loop.__setitem__': 'mapping interface of Loop',
     'io.sqw._build:SqwBuilder.add_default_instrument': 'SqwBuilder is a mutable builder; add_* are documented to modify and return it',
@@ -139,8 +135,8 @@ def run(tier: str) -> Run:
         bad = {}
         for tok, m in s.mutates.items():
             root = tok[2:].split('.')[0].split('[')[0]
-            if fq in ALLOWED_MUTATORS and root == 'self':
-                continue
+            if (fq in ALLOWED_MUTATORS or fq.endswith('.setter')) and root == 'self':
+                continue  # documented mutators of their own object; a property setter is one by definition
             bad[tok] = m
         if bad:
             tok, m = sorted(bad.items())[0]
